@@ -16,8 +16,10 @@ NeverForValid == NoSuch \cup {"WrongType", "ReadOnly", "InternalError", "Protoco
 
 WireNames(accs) == {accs[a].wire : a \in DOMAIN accs} \ {""}
 AccByWire(accs, w) == accs[CHOOSE a \in DOMAIN accs : accs[a].wire = w]
+\* <p>_limits is described as a plain tuple: that the pair is ordered is not part of the datainfo
+DescDt(dt) == IF dt.t = "limits" THEN [t |-> "tuple", els |-> <<dt.el, dt.el>>] ELSE dt
 DescAcc(acc) == IF acc.kind = "param"
-                THEN [kind |-> "param", dt |-> acc.dt, ro |-> acc.ro \/ acc.const # Null, const |-> acc.const]
+                THEN [kind |-> "param", dt |-> DescDt(acc.dt), ro |-> acc.ro \/ acc.const # Null, const |-> acc.const]
                 ELSE [kind |-> "cmd", arg |-> acc.arg]
 Described(sh) == [m \in DOMAIN sh |-> [w \in WireNames(sh[m]) |-> DescAcc(AccByWire(sh[m], w))]]
 
@@ -27,7 +29,8 @@ Described(sh) == [m \in DOMAIN sh |-> [w \in WireNames(sh[m]) |-> DescAcc(AccByW
 RECURSIVE Importable(_, _)
 Importable(dt, v) ==
   CASE dt.t = "double" -> IsNumber(v)
-    [] dt.t = "int"    -> v.k = "num"
+    [] dt.t \in {"int", "scaled"} -> v.k = "num"
+    [] dt.t = "blob"   -> v.k = "str" /\ v.b64 >= 0
     [] dt.t = "enum"   -> v.k = "num" /\ \E i \in 1 .. Len(dt.mem) : dt.mem[i].val = v.n
     [] dt.t = "string" -> v.k = "str"
     [] dt.t = "bool"   -> v.k = "bool"
@@ -37,12 +40,14 @@ Importable(dt, v) ==
                           /\ \A key \in Keys(v) : Importable(dt.mem[MemberDt(dt, key)].dt, ValOf(v, key))
     [] OTHER -> TRUE
 
+(* "change m" / "read m" address the module's target / value *)
+DName(req) == IF req.act \in {"change", "read"} THEN WireOf(req) ELSE req.name
 (* is the request aimed at something the description lists (with the fitting kind)? *)
 Known(desc, req) ==
   /\ req.mod \in DOMAIN desc
   /\ IF req.act = "activate" /\ req.name = "" THEN TRUE
-     ELSE /\ req.name \in DOMAIN desc[req.mod]
-          /\ req.act # "activate" => desc[req.mod][req.name].kind = (IF req.act = "do" THEN "cmd" ELSE "param")
+     ELSE /\ DName(req) \in DOMAIN desc[req.mod]
+          /\ req.act # "activate" => desc[req.mod][DName(req)].kind = (IF req.act = "do" THEN "cmd" ELSE "param")
 
 (* e = [req, prev, cls, value, real_ok, imp, strict]                                      *)
 (*   prev    the value last seen on the wire for the parameter (Null if none)              *)
@@ -71,7 +76,7 @@ Judge(desc, e) ==
   IF ~Known(desc, req) THEN (IF e.cls \in NoSuch THEN "" ELSE "undescribed.reachable")
   ELSE IF req.act = "activate"
        THEN (IF e.cls \in NoSuch /\ (req.name = "" \/ desc[req.mod][req.name].kind = "param") THEN "described.unreachable" ELSE "")
-  ELSE LET d == desc[req.mod][req.name] IN
+  ELSE LET d == desc[req.mod][DName(req)] IN
     CASE req.act = "read" ->
            IF e.cls \in NoSuch THEN "described.unreachable"
            ELSE IF d.const # Null THEN (IF e.cls = "ok" /\ e.value = d.const THEN "" ELSE "constant.read")
@@ -112,7 +117,8 @@ JudgeUpdates(desc, e) ==
 (* that has Feature as a direct base, and the highest SECoP base class.                                         *)
 FeatPar(wire, dt, init, f) ==
   [kind |-> "param", wire |-> wire, dt |-> dt, ro |-> FALSE, const |-> Null, init |-> init, lim |-> NoLim,
-   hooks |-> <<>>, drv |-> "absent", ret |-> Null, islimit |-> FALSE, level |-> "X", feature |-> f]
+   hooks |-> <<>>, drv |-> "absent", ret |-> Null, rd |-> "absent", rret |-> Null, islimit |-> FALSE, level |-> "X",
+   feature |-> f]
 FeatAccs == [VFeatA |-> [fa |-> FeatPar("_fa", DTi, Num(3), "VFeatA")],
              VFeatB |-> [fb |-> FeatPar("_fb", DTs, SAb, "VFeatB")],
              HasOffset |-> [offset |-> FeatPar("_offset", [t |-> "double", lo |-> -1000000, hi |-> 1000000], Num(0), "HasOffset")]]
@@ -147,20 +153,20 @@ Structure(d) ==
   ELSE ""
 
 (* ---- design-level theorem: Dispatch honours Described(shape) ---- *)
-TargetAcc(req) == shape[req.mod][CHOOSE a \in DOMAIN shape[req.mod] : shape[req.mod][a].wire = req.name]
+TargetAcc(req) == shape[req.mod][CHOOSE a \in DOMAIN shape[req.mod] : shape[req.mod][a].wire = DName(req)]
 IsKnown(req) == req.act # "none" /\ Known(Described(shape), req)
 EventsOf(c, o) ==
   LET req == o.req
       known == IsKnown(req)
       acc == TargetAcc(req)
       isp == known /\ acc.kind = "param"
-      dt == IF isp THEN acc.dt ELSE IF known THEN acc.arg ELSE NoDt
-      prev == IF isp /\ acc.const = Null THEN c[req.mod][CHOOSE a \in DOMAIN shape[req.mod] : shape[req.mod][a].wire = req.name] ELSE Null
+      dt == IF isp THEN DescDt(acc.dt) ELSE IF known THEN acc.arg ELSE NoDt    \* what a client rebuilds
+      prev == IF isp /\ acc.const = Null THEN c[req.mod][CHOOSE a \in DOMAIN shape[req.mod] : shape[req.mod][a].wire = DName(req)] ELSE Null
   IN {[req |-> req, prev |-> prev, cls |-> k,
        value |-> IF o.reply.ok THEN o.reply.v ELSE Null,
        real_ok |-> IF known /\ dt # NoDt /\ ~(req.act = "do" /\ req.payload = Null) THEN Validate(dt, req.payload, prev).ok ELSE TRUE,
        imp |-> TRUE,
-       strict |-> isp /\ acc.hooks = <<>> /\ acc.lim.kind = "none"]
+       strict |-> isp /\ acc.hooks = <<>> /\ acc.lim.kind = "none" /\ acc.drv # "raise" /\ acc.dt.t # "limits"]
       : k \in (IF o.reply.ok THEN {"ok"} ELSE o.reply.cls)}
 DescriptionTrue ==
   [][\A e \in EventsOf(cache, last') : Judge(Described(shape), e) = ""]_vars
